@@ -213,6 +213,7 @@ class FrameQueueFrag(FrameQueue):
     def __init__(self, queue: Optional[Union["FrameQueue", "FrameQueueFrag"]] = None):
         super().__init__(queue)
         self._frags = RF24NetworkFrame()  # initialize cache
+        self._frags.header.from_node = None  # type: ignore[assignment] # nothing cached
 
     def enqueue(self, frame: RF24NetworkFrame) -> bool:
         """Add a `RF24NetworkFrame` to the queue."""
@@ -238,7 +239,10 @@ class FrameQueueFrag(FrameQueue):
                         # External data needs to be propagated back to update()
                         frame.header.message_type = NETWORK_EXT_DATA  # by reference
                     self._frags.header.message_type = frame.header.reserved
-                    return super().enqueue(self._frags)
+                    result = super().enqueue(self._frags)
+                    # message is complete; do not splice anything else onto it
+                    self._frags.header.from_node = None  # type: ignore[assignment]
+                    return result
                 return True
             # print("dropping fragment due to missing 1st fragment")
             return False
